@@ -41,6 +41,9 @@ const tContend = "TestContention"
 //	                 and Deletes "x"; the others Create("x") in a loop and, when they win, Append one
 //	                 record and Close → no call panics, every collected file holds at most one
 //	                 record, every successful Create's record is in exactly one file
+//	churn-distinct:  every goroutine loops Create(own fresh name), Append, Append, Close — descriptors
+//	                 are handed out and closed all the time, the OS (or the implementation) reuses
+//	                 their numbers → every file holds exactly its creator's two records
 type ContendCase struct {
 	Impl   string `json:"impl"`
 	Mode   string `json:"mode"`
@@ -107,6 +110,17 @@ func runContend(c ContendCase) (msg string, inconcl string) {
 					}
 				}
 				switch c.Mode {
+				case "churn-distinct":
+					for j := 0; j < churnIters; j++ {
+						f, ok := fs.Create(dir, fmt.Sprintf("c%d_%d", i, j))
+						if !ok {
+							detail[i] = fmt.Sprintf("Create of the fresh name c%d_%d failed", i, j)
+							return
+						}
+						fs.Append(f, sharedRecord(i, j%200, 24))
+						fs.Append(f, sharedRecord(i, j%200, 40))
+						fs.Close(f)
+					}
 				case "create-delete-create":
 					if i == 0 {
 						for n := 0; n < 200000; n++ {
@@ -293,6 +307,18 @@ func runContend(c ContendCase) (msg string, inconcl string) {
 			}
 		}
 		switch c.Mode {
+		case "churn-distinct":
+			for i := 0; i < c.K; i++ {
+				for j := 0; j < churnIters; j++ {
+					name := fmt.Sprintf("c%d_%d", i, j)
+					want := append(sharedRecord(i, j%200, 24), sharedRecord(i, j%200, 40)...)
+					got := readAll(name)
+					if !bytes.Equal(got, want) {
+						return fmt.Sprintf("round %d: %d goroutines each created, appended to (24 + 40 bytes) and closed %d files of their own; file %s holds %d bytes %x, want the %d bytes its creator appended (first difference at byte %d): appends through distinct descriptors of distinct files were misplaced or lost", r, c.K, churnIters, name, len(got), head(got, 24), len(want), firstDiffAt(got, want)), ""
+					}
+					fs.Delete(dir, name)
+				}
+			}
 		case "create-delete-create":
 			files := []string{}
 			for _, nm := range fs.List(dir) {
@@ -430,6 +456,27 @@ func sharedRecord(i, j, n int) []byte {
 	return b
 }
 
+const churnIters = 250
+
+func head(b []byte, n int) []byte {
+	if len(b) > n {
+		return b[:n]
+	}
+	return b
+}
+
+func firstDiffAt(a, b []byte) int {
+	for i := 0; i < len(a) && i < len(b); i++ {
+		if a[i] != b[i] {
+			return i
+		}
+	}
+	if len(a) < len(b) {
+		return len(a)
+	}
+	return len(b)
+}
+
 // parseSharedRecord recognises one whole 16-byte-header record with n == len(b).
 func parseSharedRecord(b []byte) (writer, seq int, ok bool) {
 	if len(b) < 8 || b[0] != 0xA5 || b[1] != 0x5A || b[7] != 0xC3 {
@@ -501,7 +548,7 @@ func TestContention(t *testing.T) {
 	rapid.Check(t, func(t *rapid.T) {
 		c := ContendCase{
 			Impl: rapid.SampledFrom([]string{"mem", "mem", "dir"}).Draw(t, "impl"),
-			Mode: rapid.SampledFrom([]string{"same-create", "same-link", "distinct-create", "create-vs-atomic", "link-vs-atomic", "read-vs-append", "shared-append", "link-delete-list", "create-delete-create"}).Draw(t, "mode"),
+			Mode: rapid.SampledFrom([]string{"same-create", "same-link", "distinct-create", "create-vs-atomic", "link-vs-atomic", "read-vs-append", "shared-append", "link-delete-list", "create-delete-create", "churn-distinct"}).Draw(t, "mode"),
 			K:    rapid.IntRange(2, 8).Draw(t, "k"),
 		}
 		if c.Mode == "link-delete-list" {
@@ -540,7 +587,14 @@ func TestContention(t *testing.T) {
 		if c.Mode == "create-delete-create" && c.K < 3 {
 			c.K = 3
 		}
+		if c.Mode == "churn-distinct" {
+			// volume matters: a descriptor number must be reused while its previous owner is still
+			// inside Close (seeded change C14-6 shows about once per 10^5 files)
+			c.K += 8
+		}
 		switch c.Mode { // long rounds
+		case "churn-distinct":
+			c.Rounds = 2 + ev.EnvInt("VERIF_CONTEND_ROUNDS", 300)/75
 		case "create-delete-create":
 			c.Rounds = 1 + c.Rounds/40
 		case "link-vs-atomic":
